@@ -237,17 +237,17 @@ for _p in ["C%02d" % i for i in range(1, 21)]:
 _ADD = {
     "C01": " Condition-role lemmas are discharged below every logical-operator parent class (enumerated from the class hierarchy); Index / Call "
            "mappings have their own cover lemmas; HashedValue identity (never derived from the value), _invert_ for every comparison operation "
-           "and the pass-through of a nested quantifier (every result once, every binding kept) are separate obligations.",
+           "and the pass-through of a nested quantifier (every result once, every binding kept) are separate obligations. A node is a condition as the child of ANY object-descriptor class evaluating it (also in a nested query) and a value as a selected expression.",
     "C02": " The result quantifier's counting-loop contract (reported = pulled, containers kept by the loop of unknown content) and _invert_ "
            "for every comparison operation are part of the check.",
     "C03": " The node list an evaluation announces itself to is the real _all_nodes_ over a tree that grows between evaluations; rule surgery "
            "is checked with stale evaluation parents on every node (C08 lemmas).",
-    "C04": " FunctionMapping persists (module, owning class, name) and returns exactly the function found under that triple, whatever was converted before.",
+    "C04": " FunctionMapping persists (module, owning class, name) and returns exactly the function found under that triple, whatever was converted before. _argument_names is under contract (every constructor parameter but self, keyword-only ones included).",
     "C06": " The module of every column type (builtin, datetime, enum of another module) is imported by the generated file.",
-    "C07": " String containment forms are pinned to instr(container, item) > 0 terms (never LIKE).",
+    "C07": " String containment forms are pinned to instr(container, item) > 0 terms (never LIKE). Paths over several relationships: every hop is joined through its own alias on the attribute of the element it starts from; joins are reused within one translation only.",
     "C08": " Surgery lemmas also hold when an earlier evaluation left its parent pointers on the nodes; a later `with query:` block enters the base "
            "rule again; Alternative / Next pass every result of the else-if / union below them on exactly once.",
-    "C09": " The stream contracts hold under any parent (user or enclosing query) and every binding of the child's result is passed on.",
+    "C09": " The stream contracts hold under any parent (user or enclosing query) and every binding of the child's result is passed on. A description quantified before gets a new quantifier with the constraint stated now; the(...) is evaluated anew for every binding of an enclosing query.",
     "C10": " Node labels are computed by the real _name_ properties under the effect contract (formatting user data is an effect); Exists and "
            "Flatten have streaming contracts (no result after the child stream ended, nothing copied).",
     "C11": " Resolving a pattern does not rewrite its requested type or flags (match and select alike); every keyword is a constraint whatever its value.",
@@ -261,7 +261,9 @@ _ADD = {
     "C15": " C16's assertion contracts (every value written into a managed field reaches add_relation_to_the_graph once) are re-checked under C15; "
            "the transitive rule composes with asserted and inferred edges of the same descriptor class.",
     "C16": " Owners and elements are instances of classes with a __len__ of symbolic size (possibly falsy).",
-    "C18": " Registry lookup is by the exact type; a serialisable object that is iterable is still serialised as an object.",
+    "C17": " Assumed RWXNode contract: a display node adds itself to the graph it is given, so rendering must not hand it the diagram's own graph.",
+    "C19": " The mapping holds whichever serialisable class from_json is called on and whatever class-level tables the serialiser classes keep; a normal exit hands over to the attribute of the imported module named by the tag.",
+    "C18": " Registry lookup is by the exact type; a serialisable object that is iterable is still serialised as an object. What a class's _from_json built is returned untouched (it may be falsy).",
 }
 for _k, _v in _ADD.items():
     if _k in CHECKS and "text" in CHECKS[_k]:
